@@ -449,6 +449,11 @@ func c18Main(args map[string]string) {
 			fixJX(&x)
 			jc := J2TCase{Variant: "random", J: &x, O: o, Seed: r.Int63()}
 			c.j2tCase(jc)
+			if k == 0 && !o.Nob64 {
+				// the same document with its base64 texts spelled with JSON escapes (labelled: a recorded native defect, which the
+				// portable implementation shares on purpose)
+				c.j2tCase(J2TCase{Variant: "b64-escaped", J: &x, O: J2TOpts{S2i: o.S2i, Wreq: true}, Seed: r.Int63()})
+			}
 			// skipping: a conforming value of this descriptor, and a mutilated copy
 			v := convConforming(r, c.cur.From, c.cur, 0, false, false).Enc(nil)
 			c.skipCase(c.cur.From.T, v, map[string]interface{}{"skip": map[string]interface{}{"t": c.cur.From.T, "b": B(v)}})
